@@ -10,6 +10,7 @@ CONSTANTS
   Protos = {TRUE, FALSE}
   Faults <- SomeFaults
   Spurious = FALSE
+  AllowDrop = FALSE
   Durs <- Durs1
   MaxT = 1
   RespFaults = TRUE
